@@ -38,6 +38,11 @@ def run(ctx, fb, cfg):
     import traversal
 
     traversal.run_table(ctx, lib, R + "K5.walk-star-is-deep", only=["walk_star"])
+    # a project goal works for several reaching states only when it is rebuilt per state: the
+    # closure operator must re-evaluate its body on every solve and hold no cached goal (shared with C15)
+    import C15
+
+    C15.check_unfolding(C15._Prefixed(ctx, "C11"), lib)
     edges, bodies = panics.call_graph(lib)
     bd = mutaudit.backdoors(lib)
     unsafe_fns = set(bd)
